@@ -43,7 +43,7 @@ def DATE(r):
 
 
 def COMMENT(r):
-    return r.choice(['c', 'two\nlines', '', ' lead', 'x;y', 'a\n\nb', 'ü', 'cr\r\nlf'])
+    return r.choice(['c', 'two\nlines', '', ' lead', 'x;y', 'a\n\nb', 'ü', 'cr\r\nlf', 'was: open ; closed since\nsecond; line', ';;'])
 
 
 def ICOMMENT(r):
